@@ -1,7 +1,6 @@
 -- GENERATED. Tables the translator could not find where it expected them.
 namespace Dippy.Generated
 
-def missingTables : List String := [
-  "wrapper DURATION test"]
+def missingTables : List String := []
 
 end Dippy.Generated
